@@ -584,6 +584,23 @@ theorem no_panic_getRows (iters : List Bool) :
   simp only [Outcome.ok.injEq] at hn
   omega
 
+/-! ## the Strict-namespace scanner -/
+
+/-- the two backward scans of `namespaceStrictToTransitional` are bounded by `> 0`, the forward scan by
+`j < len(rest)`, and the index sites are the ones the model transcribes -/
+theorem guards_nsStrict :
+    Facts.C14.loops_nsStrict = ["i < len(content)", "j < len(rest) && rest[j] != '>'",
+      "nameEnd > 0 && (rest[nameEnd-1] == '=' || rest[nameEnd-1] == ' ' || rest[nameEnd-1] == '\\t' || rest[nameEnd-1] == '\\n' || rest[nameEnd-1] == '\\r')",
+      "nameStart > 0 && rest[nameStart-1] != ' ' && rest[nameStart-1] != '\\t' && rest[nameStart-1] != '\\n' && rest[nameStart-1] != '\\r' && rest[nameStart-1] != '<'"] ∧
+    Facts.C14.index_nsStrict.length = 25 ∧ "rest[nameStart:nameEnd]" ∈ Facts.C14.index_nsStrict ∧
+    "rest[valueStart:valueEnd]" ∈ Facts.C14.index_nsStrict ∧ "closing < 0" ∈ Facts.C14.conds_nsStrict := by decide +kernel
+
+/-- clause "any byte sequence … never panic" for the first thing done with every part of a Strict package:
+for EVERY byte string (unterminated tags, quotes without names, a damaged blank between two namespace
+declarations, nothing but quotes, …) every index and slice `namespaceStrictToTransitional` takes is in range -/
+theorem no_panic_nsStrict (content : List Char) : (nsStrict content).isPanic = false :=
+  nsScan_no_panic _ content []
+
 /-! ## the streaming row iterator -/
 
 /-- `Rows.Next` / `Rows.Columns` take no index or slice at all, and the row-number guards are in place -/
